@@ -86,20 +86,30 @@ def replay(fl, FA, clause, hedge, vals, other=None):
                 return {"failed": True, "expected": float(exp), "observed": float(obs), "call": f"{hedge}().hedge({float(u)!r}) (documented formula, to 2 ulp)"}
             if hedge == "Not" and float(u) * 2 ** 20 == int(float(u) * 2 ** 20) and H(H(u)) != u:
                 return {"failed": True, "expected": float(u), "observed": float(H(H(u))), "call": f"not(not({float(u)!r})) on the exact dyadic grid"}
-        for arr in (np.array(0.3), np.array([0.3, 0.6, 0.0, 1.0]), np.array([[0.3, 0.6, 0.3], [0.0, 1.0, 0.25]]), np.array([[[0.5]], [[0.75]]])):
+        base2 = np.array([[0.3, 0.6, 0.9], [0.0, 1.0, 0.75]])
+        shapes = [np.array(0.3), np.array([0.3, 0.6, 0.0, 1.0]), np.array([[0.3, 0.6, 0.3], [0.0, 1.0, 0.25]]), np.array([[[0.5]], [[0.75]]]),
+                  np.array([0.7]), np.array([[0.7]]),                       # one degree in an array keeps the array's shape
+                  np.asfortranarray(base2), base2.T, base2[:, ::2],         # memory layout is not part of the value: column-major, transposed and strided views
+                  np.asarray(np.matrix([[0.5, 1.0], [0.25, 0.9]]))]        # (a plain ndarray built from a matrix)
+        for arr in shapes:
             exp = np.array([H(v) for v in arr.ravel()]).reshape(arr.shape)
-            got = np.asarray(h.hedge(arr.copy()), dtype=float)
+            got = np.asarray(h.hedge(arr.copy(order="K") if arr.ndim else arr.copy()), dtype=float)
             if got.shape != arr.shape or not np.allclose(got, exp, rtol=1e-15, atol=0):
                 return {"failed": True, "expected": {"shape": list(arr.shape), "values": exp.tolist()}, "observed": {"shape": list(got.shape), "values": got.tolist()},
                         "call": f"{hedge}().hedge(array of shape {arr.shape}) against its elements one by one"}
-            first = h.hedge(arr.copy())
+            first = h.hedge(arr.copy(order="K") if arr.ndim else arr.copy())
             if isinstance(first, np.ndarray) and first.flags.writeable:
                 first *= 0.25          # the caller owns the result it was given
-            again = np.asarray(getattr(fl, hedge)().hedge(arr.copy()), dtype=float)
+            again = np.asarray(getattr(fl, hedge)().hedge(arr.copy(order="K") if arr.ndim else arr.copy()), dtype=float)
             if again.shape != exp.shape or not np.allclose(again, exp, rtol=1e-15, atol=0):
                 return {"failed": True, "expected": exp.tolist(), "observed": again.tolist(),
                         "call": f"{hedge}().hedge(array of shape {arr.shape}) called again after the first result was scaled in place by its caller"}
-        return {"failed": False, "cases": len(pts) + 8}
+        mat = np.matrix([[0.5, 1.0], [0.25, 0.9]])
+        exp = np.array([[H(v) for v in row] for row in np.asarray(mat)])
+        got = np.asarray(h.hedge(mat), dtype=float)
+        if got.shape != exp.shape or not np.allclose(got, exp, rtol=1e-15, atol=0):
+            return {"failed": True, "expected": exp.tolist(), "observed": got.tolist(), "call": f"{hedge}().hedge(np.matrix([[0.5, 1.0], [0.25, 0.9]])): element-wise, like any array of degrees"}
+        return {"failed": False, "cases": len(pts) + 12}
     if clause == "elementwise":
         arr = np.array([x, x2, 0.0, 0.5, 1.0, 0.25])
         keep = arr.copy()
